@@ -70,6 +70,16 @@ def b_rules(p: Project, rep: Report):
         trys = [s for s in own_statements(ifn) if isinstance(s, ast.Try)]
         wraps = [t for t in trys if any(h.type is not None and "ValueError" in text(h.type) and any(isinstance(x, ast.Raise) and x.exc is not None and "OFXHeaderError" in text(x.exc) for x in ast.walk(h)) for h in t.handlers)]
         stores = [s for s in own_statements(ifn) if isinstance(s, ast.Assign) and isinstance(s.targets[0], ast.Attribute) and text(s.targets[0].value) == "self"]
+        dyn = [c for c in own_nodes(ifn) if isinstance(c, ast.Call) and isinstance(c.func, ast.Name) and c.func.id == "setattr" and c.args and text(c.args[0]) == "self"]
+        if dyn and len(stores) < len(pnames):
+            rep.note(f"B-R2 undecided for {clsname}: fields are stored through setattr() in a loop")
+            for c in dyn:
+                inside = any(any(x is c for x in ast.walk(ast.Module(body=t.body, type_ignores=[]))) for t in wraps)
+                rep.check("B-R2", f"{clsname}.__init__:setattr:inside-wrapping-try", inside, "fields are stored outside the try that converts ValueError into OFXHeaderError" if not inside else "", hloc(p, c))
+            stores = []
+            pnames_to_check = []
+        else:
+            pnames_to_check = pnames
         stored = {}
         for s in stores:
             nm = s.targets[0].attr
@@ -80,7 +90,7 @@ def b_rules(p: Project, rep: Report):
             names = {x.id for x in ast.walk(s.value) if isinstance(x, ast.Name)}
             ok = nm in names and not (names & (set(pnames) - {nm}))
             rep.check("B-R2", f"{clsname}.__init__:{nm}:from-own-parameter", ok, f"self.{nm} is computed from {sorted(names & set(pnames))}" if not ok else "", hloc(p, s))
-        for prm in pnames:
+        for prm in pnames_to_check:
             rep.check("B-R2", f"{clsname}.__init__:{prm}:stored", prm in stored, f"parameter {prm} is never stored" if prm not in stored else "", hloc(p, ifn))
         # handlers must not swallow
         for t in trys:
@@ -127,10 +137,13 @@ def b_rules(p: Project, rep: Report):
             elif kind == "Integer":
                 rep.check("B-R6", f"{clsname}.regex:{gname}-admits-digits", set("0123456789") <= cs, "", r.where)
     # B-R5 parse
+    from .flat import flat as _flat
+
     base = p.get_class(HEADER, "OFXHeaderBase")
-    pfn = base.own_func("parse")
-    if pfn is None:
+    pfn0 = base.own_func("parse")
+    if pfn0 is None:
         raise AnalysisError("OFXHeaderBase.parse not found")
+    pfn = _flat(p, HEADER, pfn0, base)
     ex = Expander(pfn)
     cfg = CFG(pfn)
     reach = Reaching(cfg)
@@ -140,8 +153,24 @@ def b_rules(p: Project, rep: Report):
     for n in ctor:
         c = [x for x in n.calls() if isinstance(x.func, ast.Name) and x.func.id == params_of(pfn)[0]][0]
         star = [k.value for k in c.keywords if k.arg is None][0]
-        vals_ = [text(v) for v in resolve_values(star, n, reach)]
-        ok = bool(vals_) and all(v in ("{k.lower(): v for k, v in headerattrs.items()}", "{k.lower(): v for (k, v) in headerattrs.items()}", "headermatch.groupdict()") or ("lower()" in v and ": v for" in v.replace("(k, v)", "k, v") and "int(" not in v) for v in vals_)
+        from . import paths as _PT0
+
+        _pp = _PT0.enumerate_paths(pfn, expander=ex)
+        _cn = [x for x in _pp.cfg.nodes if any(text(cc) == text(c) for cc in x.calls())]
+        vals_ = []
+        for _pth in _pp:
+            for x in _cn:
+                if x.id in _pth.marks:
+                    vals_.append(text(_PT0.value_on_path(_pth, _pp.cfg, star, upto=_pth.nodes.index(x.id))))
+        vals_ = sorted(set(vals_))
+        import re as _re
+
+        def passes(v):
+            # {<k>.lower(): <v> for <k>, <v> in <match>.groupdict().items()}  - keys lower-cased, values untouched
+            m_ = _re.fullmatch(r"\{(\w+)\.lower\(\): (\w+) for \(?(\w+), (\w+)\)? in (.+)\.items\(\)\}", v)
+            return bool(m_) and m_.group(1) == m_.group(3) and m_.group(2) == m_.group(4) and m_.group(5).endswith(".groupdict()")
+
+        ok = bool(vals_) and all(passes(v) or v.endswith(".groupdict()") for v in vals_)
         # follow one more level: headerattrs = headermatch.groupdict()
         rep.check("B-R5", "parse:passes-captures-unmodified", ok, f"the constructor receives {vals_}: captured header strings are converted or altered before validation (e.g. int('0') is falsy and would be replaced by the default)" if not ok else "", hloc(p, c))
     from .dataflow import writes_in
@@ -149,31 +178,49 @@ def b_rules(p: Project, rep: Report):
     starnames = {text(k.value) for n in ctor for c in n.calls() for k in c.keywords if k.arg is None and isinstance(k.value, ast.Name)}
     edits = [w for w in writes_in(pfn) if isinstance(w.target, (ast.Subscript, ast.Attribute, ast.Name)) and any(text(w.target).startswith(nm) for nm in starnames)]
     rep.check("B-R5", "parse:captures-not-edited-in-place", not edits, f"the captured header fields are modified before validation ({[text(w.stmt)[:60] for w in edits]}): e.g. int('000') == 0 is falsy, so the constructor's `or default` replaces an invalid OFXHEADER by the valid default" if edits else "", hloc(p, edits[0].stmt if edits else pfn))
-    guards = [n for n in cfg.nodes if n.kind == "test" and any(isinstance(s, ast.Raise) and s.exc is not None and "OFXHeaderError" in text(s.exc) for s in n.stmt.body) and text(norm(n.stmt.test)) in ("not headermatch", "headermatch is None")]
-    ok = bool(guards) and all(cfg.dominated_by(n.id, [g.id for g in guards]) for n in ctor)
+    from . import paths as PT
+
+    ppths = PT.enumerate_paths(pfn, expander=ex)
+    pc = ppths.cfg
+    ctor2 = pc.nodes_calling(lambda c: isinstance(c.func, ast.Name) and c.func.id == params_of(pfn0)[0] and any(k.arg is None for k in c.keywords))
+    matched = [a for a in PT.atoms_of(ppths) if a.endswith(f".search({params_of(pfn0)[1]}))") or a.endswith(f".match({params_of(pfn0)[1]}))") or a.endswith(" is None") and "regex" in a]
+    ok = bool(matched) and bool(ctor2)
+    if ok:
+        for cn in ctor2:
+            for pth in ppths:
+                cb = pth.conds_before(cn.id)
+                if cb is None:
+                    continue
+                a0 = matched[0]
+                goal = PT.atom(a0, False) if a0.endswith(" is None") else PT.atom(a0, True)
+                if PT.implies(cb, goal) is False:
+                    ok = False
+    raises = [pth for pth in ppths if pth.outcome == "raise" and pth.value is not None and "OFXHeaderError" in text(pth.value)]
+    ok = ok and bool(raises)
     rep.check("B-R5", "parse:no-match-raises-OFXHeaderError", ok, "a header text that does not match the regex does not raise OFXHeaderError" if not ok else "", hloc(p, pfn))
     m = [s for s in own_statements(pfn) if isinstance(s, ast.Assign) and isinstance(s.value, ast.Call) and isinstance(s.value.func, ast.Attribute) and s.value.func.attr in ("search", "match", "fullmatch")]
-    ok = bool(m) and all(text(s.value.func.value) == f"{params_of(pfn)[0]}.regex" and text(s.value.args[0]) == params_of(pfn)[1] for s in m)
+    ok = bool(m) and all(ex.t(s.value.func.value) == f"{params_of(pfn0)[0]}.regex" and ex.t(s.value.args[0]) == params_of(pfn0)[1] for s in m)
     rep.check("B-R5", "parse:matches-cls.regex", ok, "" if ok else "parse() does not match its argument against cls.regex", hloc(p, pfn))
 
     rep.rule("B-R3", "make_header routes by int(version) // 100 through {1: OFXHeaderV1, 2: OFXHeaderV2}, turns a non-numeric version and an unsupported major version into OFXHeaderError, and passes version/security/uids to the class")
-    mfn = p.get_function(HEADER, "make_header").node
-    mparams = params_of(mfn)
-    dicts = [d for d in own_nodes(mfn) if isinstance(d, ast.Dict)]
+    mfn0 = p.get_function(HEADER, "make_header").node
+    mfn = _flat(p, HEADER, mfn0)
+    mparams = params_of(mfn0)
+    mx = Expander(mfn)
     ok = False
-    for d in dicts:
-        mp = {k.value: text(v) for k, v in zip(d.keys, d.values) if isinstance(k, ast.Constant)}
-        if mp == {1: "OFXHeaderV1", 2: "OFXHeaderV2"}:
-            ok = True
-            sub = parent(d)
-            ok = isinstance(sub, ast.Subscript) and Expander(mfn).t(sub.slice) == f"int({mparams[0]}) // 100"
+    for sub in [x for x in own_nodes(mfn) if isinstance(x, ast.Subscript) and isinstance(x.ctx, ast.Load)]:
+        d = mx.x(sub.value)
+        if isinstance(d, ast.Dict):
+            mp = {k.value: text(v) for k, v in zip(d.keys, d.values) if isinstance(k, ast.Constant)}
+            if set(mp.values()) == {"OFXHeaderV1", "OFXHeaderV2"}:
+                ok = mp == {1: "OFXHeaderV1", 2: "OFXHeaderV2"} and mx.t(sub.slice) == f"int({mparams[0]}) // 100"
     rep.check("B-R3", "make_header:routing-table", ok, "versions are not routed {1: OFXHeaderV1, 2: OFXHeaderV2}[int(version) // 100]" if not ok else "", hloc(p, mfn))
     for exc in ("ValueError", "KeyError"):
         hs = [h for t in own_statements(mfn) if isinstance(t, ast.Try) for h in t.handlers if h.type is not None and exc in text(h.type)]
         ok = bool(hs) and all(any(isinstance(x, ast.Raise) and x.exc is not None and "OFXHeaderError" in text(x.exc) for x in ast.walk(h)) for h in hs)
         rep.check("B-R3", f"make_header:{exc}->OFXHeaderError", ok, f"{exc} (non-numeric / unsupported version) is not turned into OFXHeaderError" if not ok else "", hloc(p, mfn))
-    calls = [c for c in own_nodes(mfn) if isinstance(c, ast.Call) and isinstance(c.func, ast.Name) and c.func.id == "HeaderClass"]
-    ok = bool(calls) and all(c.args and text(c.args[0]) == mparams[0] and {k.arg: text(k.value) for k in c.keywords} == {q: q for q in mparams[1:]} for c in calls)
+    calls = [c for c in own_nodes(mfn) if isinstance(c, ast.Call) and isinstance(c.func, ast.Name) and isinstance(mx.x(c.func), ast.Subscript)]
+    ok = bool(calls) and all(c.args and mx.t(c.args[0]) == mparams[0] and {k.arg: mx.t(k.value) for k in c.keywords} == {q: q for q in mparams[1:]} for c in calls)
     rep.check("B-R3", "make_header:passes-arguments", ok, "" if ok else "make_header does not pass version, security, oldfileuid, newfileuid through under their own names", hloc(p, mfn))
 
 
@@ -197,7 +244,7 @@ def _group_class(items):
 SINGLE_BYTE = {"ascii", "latin_1", "latin-1", "latin1", "iso-8859-1", "iso8859-1", "cp1252"}
 
 
-def h_rules(p: Project, rep: Report):
+def h_r1(p: Project, rep: Report):
     fn = p.get_function(HEADER, "parse_header").node
     src = params_of(fn)[0]
     cfg = CFG(fn)
@@ -218,9 +265,13 @@ def h_rules(p: Project, rep: Report):
     ok = bool(offd) and all(d.kind == "unpack" and d.index == 1 and isinstance(d.value, ast.Call) and text(d.value.func) == "OFXHeaderV1.parse" and text(d.value.args[0]) == "rawheader" for d in offd)
     rep.check("H-R1", "parse_header:offset-from-parse(rawheader)", ok, "" if ok else "the offset is not the match end of OFXHeaderV1.parse(rawheader)", hloc(p, fn))
     # OFXHeaderBase.parse returns headermatch.end() of a match on its argument
-    pfn = p.get_class(HEADER, "OFXHeaderBase").own_func("parse")
-    rets = [r for r in own_nodes(pfn) if isinstance(r, ast.Return) and isinstance(r.value, ast.Tuple)]
-    ok = bool(rets) and all(len(r.value.elts) == 2 and text(r.value.elts[1]) == "headermatch.end()" for r in rets)
+    from .flat import flat as _flat2
+    from .paths import return_paths as _rp
+
+    pfn0 = p.get_class(HEADER, "OFXHeaderBase").own_func("parse")
+    pfn = _flat2(p, HEADER, pfn0, p.get_class(HEADER, "OFXHeaderBase"))
+    rps_, _x = _rp(pfn, expander=Expander(pfn))
+    ok = bool(rps_) and all(rt.rstrip(")").endswith(f".search({params_of(pfn0)[1]}).end(") or rt.endswith(".end())") for _p, rt, _s in rps_)
     rep.check("H-R1", "parse:returns-match-end", ok, "" if ok else "parse() does not return the end of the header match", hloc(p, pfn))
     # rawheader provenance
     rd = defs.get("rawheader", [])
@@ -252,6 +303,13 @@ def h_rules(p: Project, rep: Report):
             ok = v in (f"{src}.read().decode(header.codec).strip()", f"{src}.read().decode(header.codec)")
             rep.check("H-R1", "parse_header:v1-body", ok, f"v1 body is {v}; expected the rest of the stream decoded with header.codec, surrounding whitespace stripped" if not ok else "", hloc(p, s))
 
+
+
+def h_r2(p: Project, rep: Report):
+    fn = p.get_function(HEADER, "parse_header").node
+    src = params_of(fn)[0]
+    cfg = CFG(fn)
+    reach = Reaching(cfg)
     rep.rule("H-R2", "the body is decoded with the codec the parsed header names: OFXHeaderV1.codec returns codecs[charset] on every path, the CHARSET -> codec table maps ISO-8859-1, 1252 and NONE to latin-1, cp1252 and utf-8 (normalised through codecs.lookup), charset admits exactly the table's keys; v2 uses OFXHeaderV2.codec = utf-8")
     schema = Schema(p)
     v1 = p.get_class(HEADER, "OFXHeaderV1")
@@ -266,9 +324,10 @@ def h_rules(p: Project, rep: Report):
                 got[k] = f"<unknown codec {v}>"
     rep.check("H-R2", "OFXHeaderV1.codecs", got == want, f"CHARSET -> codec table resolves to {got}; expected {want}: bodies are decoded with the wrong character set", hloc(p, v1.node))
     cfn = v1.own_func("codec")
-    rets = [r for r in own_nodes(cfn) if isinstance(r, ast.Return)] if cfn else []
-    ok = bool(rets) and all(r.value is not None and text(r.value) == "self.codecs[self.charset]" for r in rets)
-    rep.check("H-R2", "OFXHeaderV1.codec", ok, f"codec returns {[text(r.value) for r in rets if r.value is not None]}: not (only) the table entry for the declared CHARSET" if not ok else "", hloc(p, cfn or v1.node))
+    rps_c, _y = _rp(_flat2(p, HEADER, cfn, v1), expander=Expander(cfn)) if cfn else ([], None)
+    got_c = sorted({rt for _p, rt, _s in rps_c})
+    ok = got_c == ["self.codecs[self.charset]"]
+    rep.check("H-R2", "OFXHeaderV1.codec", ok, f"codec returns {got_c}: not (only) the table entry for the declared CHARSET" if not ok else "", hloc(p, cfn or v1.node))
     ch = _validators(p, schema, v1).get("charset")
     ok = ch is not None and isinstance(tbl, dict) and list(ch.args) == list(tbl.keys())
     rep.check("H-R2", "OFXHeaderV1.charset", ok, "CHARSET validator and codec table disagree" if not ok else "", hloc(p, v1.node))
@@ -277,6 +336,13 @@ def h_rules(p: Project, rep: Report):
     ok = isinstance(c2, str) and _codecs.lookup(c2).name == "utf-8"
     rep.check("H-R2", "OFXHeaderV2.codec", ok, f"OFXHeaderV2.codec is {c2!r}", hloc(p, v2.node))
 
+
+
+def h_r3(p: Project, rep: Report):
+    fn = p.get_function(HEADER, "parse_header").node
+    src = params_of(fn)[0]
+    cfg = CFG(fn)
+    reach = Reaching(cfg)
     rep.rule("H-R3", "v2: the whole source is re-read from the start, decoded with OFXHeaderV2.codec, searched by OFXHeaderV2.parse and the body is the slice of that same string from the match end")
     ds = [s for s in own_statements(fn) if isinstance(s, ast.Assign) and text(s.targets[0]) == "decoded_source"]
     ok = bool(ds) and all(text(s.value) == f"{src}.read().decode(OFXHeaderV2.codec)" for s in ds)
@@ -299,6 +365,13 @@ def h_rules(p: Project, rep: Report):
     xm = [s for s in own_statements(fn) if isinstance(s, ast.Assign) and text(s.targets[0]) == "xml_match"]
     ok = bool(xm) and all(text(s.value) == "XML_REGEX.match(line)" for s in xm)
     rep.check("H-R3", "parse_header:v2-detected-by-xml-declaration", ok, "" if ok else "v1/v2 is not decided by XML_REGEX.match on the first non-blank line", hloc(p, fn))
+
+
+
+
+def h_rules(p: Project, rep: Report):
+    for f in (h_r1, h_r2, h_r3):
+        rep.run(f, p, rep)
 
 
 def _is_chunk(v: str, src: str) -> bool:
